@@ -14,8 +14,8 @@ P = {
     "C01": (True, "MIR must-pass-through / who-may-call over the paint routine", "Static rule discharge of the emit protocol (erase->paint->flush->commit order, commit only on success, single emitter). Does not decide the row arithmetic or screen contents.", "3/C01"),
     "C02": (False, "type facts + dataflow over MultiState", "Static rule discharge: exclusive-access composition (Freeze + guard ownership), frame composed through the logical ordering, every InsertLocation arm maintains ordering, writers of ordering/free_set/members. Not linearizability or alignment arithmetic.", "3/C02"),
     "C03": (True, "pairing-on-all-exits + const-argument + who-may-copy", "Static rule discharge: text rows never enter the erase count; println always forced; orphan lines moved not copied; zombie-row ownership transfer paired on all exits. Not screen contents.", "3/C03"),
-    "C04": (False, "MIR dominance + per-variant arm effects", "Static rule discharge: forced final draw on every finish path, force flag bypasses every limiter, per-variant effects table, drop finishes exactly-once, API->variant map. Not the painted pixels.", "3/C04"),
-    "C05": (False, "MIR dominance (gate structure)", "Static rule discharge of the gate structure only: limiter is the only gate for non-forced frames, position updates precede and do not depend on the gate, paint reads live state. The numeric token-bucket law is NOT decided.", "3/C05"),
+    "C04": (True, "MIR dominance + per-variant arm effects", "Static rule discharge: forced final draw on every finish path, force flag bypasses every limiter, per-variant effects table, drop finishes exactly-once, API->variant map. Not the painted pixels.", "3/C04"),
+    "C05": (True, "MIR dominance (gate structure)", "Static rule discharge of the gate structure only: limiter is the only gate for non-forced frames, position updates precede and do not depend on the gate, paint reads live state. The numeric token-bucket law is NOT decided.", "3/C05"),
     "C06": (True, "call-graph dominance + taint (non-interference)", "Static rule discharge: terminal effects reachable only through a Drawable built under a visibility test; logical state does not depend on target kind or draw results.", "3/C06"),
     "C07": (False, "atomic-RMW dataflow + panic-edge ledger", "Static rule discharge: single-RMW discipline on the shared position, update before gate, saturating length arithmetic, fraction clamp, no unaudited panic edge in the position/length API.", "3/C07"),
     "C08": (False, "lock-order/join graph acyclicity over lock classes", "Static rule discharge: lock+join graph acyclic, no guard across blocking waits, stop protocol shape, weak-only ticker captures, no guard in public signatures. 'Promptly' as a time bound is not decided.", "3/C08"),
